@@ -25,7 +25,7 @@ PROP = dict(
           'one payload byte); distinct by hash of (arity, entry point, all '
           'values)'),
     quick=dict(configs=['asan', 'rel'], cases=16000000, maxlen=80),
-    thorough=dict(configs=['asan', 'rel'], cases=150000000, maxlen=80,
+    thorough=dict(configs=['asan', 'rel'], cases=100000000, maxlen=80,
                   fuzz_s=60, setmax=1 << 23),
     required_classes=['pair.equal', 'pair.adjacent', 'pair.straddle',
                       'pair.onebyte', 'pair.independent', 'boundary.adjacent',
